@@ -316,7 +316,7 @@ def tp_variant(kind, base):
     return R.encode_transport_parameters(d)
 
 
-TP_KINDS = ["ok", "ok", "missing", "empty", "garbage", "truncated", "dup", "huge-values", "ack-delay-exponent-21", "max-ack-delay-2^14", "udp-payload-1199", "cid-limit-1", "cid-limit-0", "wrong-iscid", "no-iscid", "server-only-from-client", "stateless-reset-token-short", "preferred-address", "preferred-address-truncated", "version-info-zero", "version-info-odd", "version-info-other", "version-info-other-first", "version-info-other-first", "int-with-trailing", "zero-length-int", "max-datagram", "unknown-ids", "many"]
+TP_KINDS = ["ok", "ok", "preferred-address", "many", "missing", "empty", "garbage", "truncated", "dup", "huge-values", "ack-delay-exponent-21", "max-ack-delay-2^14", "udp-payload-1199", "cid-limit-1", "cid-limit-0", "wrong-iscid", "no-iscid", "server-only-from-client", "stateless-reset-token-short", "preferred-address", "preferred-address-truncated", "version-info-zero", "version-info-odd", "version-info-other", "version-info-other-first", "version-info-other-first", "int-with-trailing", "zero-length-int", "max-datagram", "unknown-ids", "many"]
 
 
 def mutate_bytes(data, muts):
